@@ -195,6 +195,10 @@ mut("split_lines_cuts_one_byte_late", ["C06"], "splitLinesOutsideStrings/safety"
     [("util.go", "\t\t\t\tres = append(res, s[start:i])\n\t\t\t\tstart = i + 1", "\t\t\t\tres = append(res, s[start:i])\n\t\t\t\tstart = i + 2")], "the text after a final line break is sliced beyond its end")
 mut("parent_table_one_slot_short", ["C09"], "calAndSetParentIndex/",
     [("compiler.go", "\tsize := int16(len(e.nodes))\n\tf := make([]int16, size)\n\n\tqueue := make([]*astNode, 0, size)", "\tsize := int16(len(e.nodes))\n\tf := make([]int16, size-1)\n\n\tqueue := make([]*astNode, 0, size)")], "the parent table misses the slot of the last node")
+mut("comment_also_ends_at_carriage_return", ["C14"], "comment-ends-only-at-a-line-feed",
+    [("parser.go", "\t\t\t\tif A[i] == '\\n' {\n\t\t\t\t\tbreak\n\t\t\t\t}\n\t\t\t}\n\t\t\treturn string(A[start:i]), nil", "\t\t\t\tif A[i] == '\\n' || A[i] == '\\r' {\n\t\t\t\t\tbreak\n\t\t\t\t}\n\t\t\t}\n\t\t\treturn string(A[start:i]), nil")], "a lone CR inside a comment turns the rest of the line into tokens")
+mut("formatter_literal_only_after_separator", ["C14"], "bnd/c14/formatter-keeps-tokens",
+    [("util.go", "\t\tcase c == '\"':\n\t\t\t// a string literal is copied verbatim", "\t\tcase c == '\"' && prev != normal:\n\t\t\t// a string literal is copied verbatim")], "a literal directly after another literal is re-laid-out")
 # ---- probes of mechanisms that only the bounded tier covers
 mut("reduce_nesting_merges_any_bool_operator", ["C02"], "bnd/",
     [("compiler.go", "\t\tif isAndOpNode(cn) == rootOpType {\n\t\t\tchildren = append(children, child.children...)", "\t\tif isAndOpNode(cn) == rootOpType || len(child.children) == 2 {\n\t\t\tchildren = append(children, child.children...)")], "a two-operand or inside an and (or vice versa) is flattened into its parent")
